@@ -1,6 +1,7 @@
 package main
 
 import (
+	"sort"
 	"fmt"
 	"go/ast"
 	"go/token"
@@ -26,6 +27,8 @@ func checkC07(c *Check, a *Anchors) {
 	recursionReviewed(c, a, "recursion-reviewed")
 	lockReleasedOnEveryExit(c, a, "lock-released-on-every-exit")
 	c06OnceKey(c, a) // two different tasks that share a run-once key wait for each other's execution: a dependency between them deadlocks
+	c07SlotAPIDirect(c, a)
+	c07NoLockAcrossRun(c, a)
 }
 
 func c07SlotPaired(c *Check, a *Anchors) {
@@ -497,4 +500,177 @@ func isCallCountIncrement(p *Prog, info *types.Info, call *ast.CallExpr, depth i
 	}
 	inner, ok := ast.Unparen(r.Results[0]).(*ast.CallExpr)
 	return ok && isCallCountIncrement(p, h.Info(), inner, depth-1)
+}
+
+// c07SlotAPIDirect: the two slot functions are only ever CALLED, in place. Handed out as a function value (stored in a field,
+// passed as an argument) they can be invoked by code the slot rules do not see — while a mutex is held, say, which inverts the
+// order against the callers that take the mutex while holding a slot.
+func c07SlotAPIDirect(c *Check, a *Anchors) {
+	c.Rule("slot-api-direct-calls", "every reference to the slot acquire / release functions in the module is the callee of a call expression (never a method value stored in a field or handed to another component): all acquisitions are the call sites the pairing, state and lock-order rules judge")
+	n := 0
+	ord := map[string]int{}
+	for _, fb := range c.P.Bodies() {
+		if !strings.HasPrefix(fb.Pkg.PkgPath, Mod) {
+			continue
+		}
+		info := fb.Info()
+		pm := parentMap(fb.Body)
+		inspectBody(fb.Body, func(nd ast.Node) bool {
+			id, ok := nd.(*ast.Ident)
+			if !ok {
+				return true
+			}
+			obj := info.Uses[id]
+			which := ""
+			switch {
+			case a.Acquire != nil && obj == types.Object(a.Acquire.Obj):
+				which = "acquire"
+			case a.Release != nil && obj == types.Object(a.Release.Obj):
+				which = "release"
+			default:
+				return true
+			}
+			n++
+			// the identifier is the Sel of a selector (or the bare name) that is the Fun of a call
+			var expr ast.Node = id
+			if sel, ok := pm[id].(*ast.SelectorExpr); ok && sel.Sel == id {
+				expr = sel
+			}
+			call, isCall := pm[expr].(*ast.CallExpr)
+			direct := isCall && ast.Unparen(call.Fun) == expr
+			c.Decide(direct, "slot-api-direct-calls", ordinal(ord, which+"@"+fnDisplay(fb.Root())), id.Pos(), "called in place",
+				"the slot "+which+" function is used as a value here (stored or passed on) instead of being called: whoever invokes it later takes or gives back a --concurrency slot outside the reviewed call sites — e.g. while holding a mutex that slot holders also take, which deadlocks under -C 1")
+			return true
+		})
+	}
+	c.Floor("slot-api-direct-calls", n, 4)
+}
+
+// c07NoLockAcrossRun: no mutex of package task is held while a task, a command of a task or a slot acquisition is awaited.
+var lockAcrossRunReviewed = map[string]string{}
+
+func c07NoLockAcrossRun(c *Check, a *Anchors) {
+	c.Rule("no-lock-across-run", "in package task no call that can wait for another task — RunTask, the dedup function, the command runner, the dependency runner, the slot acquire (directly or through functions of the package) — is made while a sync mutex locked in the same function is still held (Lock without an Unlock before the call; a deferred Unlock holds it to the end). Held across such a call, the mutex serialises independent executions, and with -C 1 the holder waits for a slot that the waiter for the mutex occupies")
+	targets := []*FuncBody{a.RunTask, a.Dedup, a.Acquire, a.CmdRunner, a.DepRunner}
+	blocking := map[*FuncBody]bool{}
+	for _, fb := range c.P.BodiesIn(PkgTask) {
+		if fb.Decl == nil {
+			continue
+		}
+		reach := c.P.ReachableFrom([]*FuncBody{fb}, nil)
+		for _, t := range targets {
+			if t != nil && reach[t] {
+				blocking[fb] = true
+			}
+		}
+	}
+	n, nLocks := 0, 0
+	ord := map[string]int{}
+	for _, fb := range c.P.BodiesIn(PkgTask) {
+		info := fb.Info()
+		muKey := func(call *ast.CallExpr) (string, string) {
+			sel, ok := ast.Unparen(call.Fun).(*ast.SelectorExpr)
+			if !ok {
+				return "", ""
+			}
+			fn, ok := callee(info, call).(*types.Func)
+			if !ok || fn.Pkg() == nil || fn.Pkg().Path() != "sync" {
+				return "", ""
+			}
+			switch fn.Name() {
+			case "Lock", "Unlock", "RLock", "RUnlock":
+			default:
+				return "", ""
+			}
+			return exprStr(sel.X), fn.Name()
+		}
+		locks := false
+		for _, call := range callsIn(fb, false) {
+			if _, op := muKey(call); op == "Lock" || op == "RLock" {
+				locks = true
+			}
+		}
+		if !locks {
+			continue
+		}
+		nLocks++
+		// may-analysis by region: a Lock holds from its position to the next Unlock of the same mutex in the text, or — when
+		// the Unlock is deferred (or missing) — to the end of the function; a branch that excludes the Lock's branch is not in
+		// the region
+		type region struct {
+			key        string
+			from, to   token.Pos
+			lock       *ast.CallExpr
+			deferredUn bool
+		}
+		var regions []region
+		deferred := map[*ast.CallExpr]bool{}
+		inspectBody(fb.Body, func(nd ast.Node) bool {
+			if d, ok := nd.(*ast.DeferStmt); ok {
+				deferred[d.Call] = true
+			}
+			return true
+		})
+		calls := callsIn(fb, false)
+		for _, call := range calls {
+			k, op := muKey(call)
+			if op != "Lock" && op != "RLock" || deferred[call] {
+				continue
+			}
+			r := region{key: k, from: call.End(), to: fb.Body.End(), lock: call}
+			for _, u := range calls {
+				uk, uop := muKey(u)
+				if uk != k || (uop != "Unlock" && uop != "RUnlock") || u.Pos() < call.End() {
+					continue
+				}
+				if deferred[u] {
+					r.deferredUn = true
+					r.to = fb.Body.End()
+					break
+				}
+				if u.Pos() < r.to {
+					r.to = u.Pos()
+				}
+			}
+			regions = append(regions, r)
+		}
+		pm := parentMap(fb.Body)
+		excluded := func(lock, call ast.Node) bool {
+			// some if statement has the lock in its body and the call in its else (or the reverse)
+			for p := pm[lock]; p != nil; p = pm[p] {
+				if ifs, ok := p.(*ast.IfStmt); ok && ifs.Else != nil {
+					if (within(lock, ifs.Body) && within(call, ifs.Else)) || (within(lock, ifs.Else) && within(call, ifs.Body)) {
+						return true
+					}
+				}
+			}
+			return false
+		}
+		for _, call := range calls {
+			fn, ok := callee(info, call).(*types.Func)
+			if !ok {
+				continue
+			}
+			d := c.P.DeclOf(fn)
+			if d == nil || !blocking[d] {
+				continue
+			}
+			var held []string
+			for _, r := range regions {
+				if call.Pos() > r.from && call.Pos() < r.to && !excluded(r.lock, call) {
+					held = append(held, r.key)
+				}
+			}
+			sort.Strings(held)
+			n++
+			key := ordinal(ord, calleeName(fn)+"@"+fnDisplay(fb.Root()))
+			_, reviewed := lockAcrossRunReviewed[key]
+			c.Decide(len(held) == 0 || reviewed, "no-lock-across-run", key, call.Pos(), "no mutex of this function is held at the call",
+				fmt.Sprintf("%s is called while %s may still be locked (locked earlier in the function, not yet unlocked — a deferred Unlock holds it to the end): the call can wait for another task, for a command or for a --concurrency slot, so every other execution that needs the mutex is serialised behind it (and with -C 1 the two wait for each other)", calleeName(fn), strings.Join(held, ", ")))
+		}
+	}
+	c.Extra["functions_with_locks"] = nLocks
+	if n == 0 {
+		c.OK("no-lock-across-run", "no-blocking-call-in-locking-function@task", 0, fmt.Sprintf("%d function(s) of package task lock a mutex; none of them calls into the run phase", nLocks))
+	}
 }
